@@ -1,5 +1,96 @@
+// Engine X: the real main() of the opensmt executable (compiled with -Dmain=opensmt_cli_main) in a forked child;
+// stdin, clock and heap go through the link-time seams; stdout/stderr are captured by the parent.
 #include "engines.h"
 #include "rt_core.h"
+
+#include <fcntl.h>
+#include <unistd.h>
+
+#include <cstdio>
+#include <cstdlib>
+#include <cstring>
+#include <string>
+#include <vector>
+
+int opensmt_cli_main(int argc, char * argv[]);
+
 namespace osim {
-int runEngineX(Json const &) { logRaw("{\"ev\":\"harness-error\",\"what\":\"engine X not built\"}"); return 9; }
+
+static std::string g_tmpPath;
+static uint64_t g_allocBase = 0;
+
+static void atExitRecord() {
+    StdinPlan & sp = stdinPlan();
+    std::string rec = "{\"ev\":\"x-exit\",\"ticks\":" + std::to_string(ticksNow()) + ",\"reads\":" + std::to_string(sp.reads) + ",\"served\":" + std::to_string(sp.pos) +
+                      ",\"allocs\":" + std::to_string(heapLayerAllocs() - g_allocBase) + ",\"clock_reads\":" + std::to_string(clockPlan().reads) + ",\"boundaries\":[";
+    for (size_t i = 0; i < sp.boundaries.size() && i < 4096; ++i) {
+        if (i) rec += ",";
+        rec += std::to_string(sp.boundaries[i]);
+    }
+    rec += "]}";
+    setTickWatch(false);
+    logRaw(rec);
+    if (!g_tmpPath.empty()) unlink(g_tmpPath.c_str());
 }
+
+int runEngineX(Json const & plan) {
+    static Task task;
+    task.id = 0;
+    setCurrentTask(&task);
+    setTickBudget((uint64_t)plan["budget_ticks"].asInt(2000000000));
+
+    std::string mode = plan["mode"].strOr("file");
+    std::string const & script = plan["script"].asStr();
+    std::vector<std::string> args;
+    args.push_back("opensmt");
+    for (auto const & a : plan["args"].arr) args.push_back(a.asStr());
+
+    g_allocBase = heapLayerAllocs();
+    if (plan.has("clock")) {
+        ClockPlan & cp = clockPlan();
+        cp.active = true;
+        cp.nsPerTick = (uint64_t)plan["clock"]["ns_per_tick"].asInt(1000);
+        for (auto const & j : plan["clock"]["jumps"].arr) cp.jumps.emplace_back((uint64_t)j[0].asInt(), (int64_t)j[1].asInt());
+    }
+    if (plan.has("rand_seed")) {
+        RandPlan & rp = randPlan();
+        rp.active = true;
+        rp.state = (uint64_t)plan["rand_seed"].asInt(1) | 1;
+    }
+
+    if (mode == "pipe") {
+        StdinPlan & sp = stdinPlan();
+        sp.active = true;
+        sp.data = script;
+        for (auto const & c : plan["chunks"].arr) sp.chunks.push_back((int)c.asInt(1));
+        sp.eofAt = plan.has("eof_at") && !plan["eof_at"].isNull() ? (long)plan["eof_at"].asInt() : -1;
+        args.push_back("-p");
+    } else {
+        char const * dir = getenv("OSIM_TMPDIR");
+        std::string d = dir ? dir : "/verif/build/tmp";
+        g_tmpPath = d + "/x_" + std::to_string((long)getpid()) + ".smt2";
+        FILE * f = fopen(g_tmpPath.c_str(), "wb");
+        if (!f) {
+            logRaw("{\"ev\":\"harness-error\",\"what\":\"cannot write temp script\"}");
+            return 9;
+        }
+        size_t len = script.size();
+        if (plan.has("eof_at") && !plan["eof_at"].isNull() && (size_t)plan["eof_at"].asInt() < len) len = (size_t)plan["eof_at"].asInt();
+        fwrite(script.data(), 1, len, f);
+        fclose(f);
+        args.push_back(g_tmpPath);
+    }
+    std::vector<char *> argv;
+    for (auto & a : args) argv.push_back(const_cast<char *>(a.c_str()));
+    argv.push_back(nullptr);
+    logRaw("{\"ev\":\"run-begin\",\"engine\":\"X\",\"mode\":\"" + mode + "\"}");
+    atexit(atExitRecord);
+    setTickWatch(true);
+    int rc = opensmt_cli_main((int)args.size(), argv.data());
+    setTickWatch(false);
+    fflush(stdout);
+    logRaw("{\"ev\":\"x-return\",\"rc\":" + std::to_string(rc) + "}");
+    exit(rc); // like returning from the real main: runs atexit handlers and static destructors
+}
+
+} // namespace osim
